@@ -77,6 +77,11 @@ def instances(tier, seed):
     for ps, r in ((["a b", "c a"], None), (["a", "b", "a b"], None), (["a b", "b"], "a"), (["*v a", "a"], None)):
         for tc in ("typeguard", "beartype"):
             out.append(("core", dict(params=ps, ret=r, maxrank=mr, switch=0, tc=tc, with_default=True)))
+    # f(p0, *p1, p2): annotated *args followed by a keyword-only parameter
+    vk = [c for c in cands if len(c[0]) == 3 and c[1] is None][:14] + [(["a", "a", "b"], None), (["a", "a", "*v"], None),
+                                                                      (["a b", "b", "b"], None), (["c", "a", "a"], None)]
+    for i, (ps, r) in enumerate(vk):
+        out.append(("core", dict(params=ps, ret=r, maxrank=mr, switch=i % 2, tc=("typeguard", "beartype")[(i // 2) % 2], varkw=True)))
     # a structured PyTree parameter followed by an array parameter that fails: T must be listed
     for tc in ("typeguard", "beartype"):
         for sw in (0, 1):
@@ -94,7 +99,7 @@ def instances(tier, seed):
     return out
 
 
-BOUNDS = dict(parameters="2..3 array parameters (+ return) over a %d-string list; unions (X|Y) whose first alternative fails late" % len(STRINGS),
+BOUNDS = dict(parameters="2..3 array parameters (+ return) over a %d-string list; unions (X|Y) whose first alternative fails late; signatures f(p0, *p1, p2) with annotated *args and a keyword-only parameter" % len(STRINGS),
               rank="0..2 per array", sizes="unbounded", typecheckers="typeguard, beartype", switch="jaxtyping_remove_typechecker_stack in {0,1}")
 STUBS = c01.STUBS
 ASSUMPTIONS = ["only the parts of the message the property names are compared (stage sentence, function name, blamed parameter, binding lines)",
@@ -209,7 +214,7 @@ def build_fn(inst, V):
         anns = anns + [None]
         return fnlib.build(ps, inst["ret"], V.ARR, inst["tc"], "function", None, anns=anns,
                            defaults={len(ps) - 1: default_array(V.ARR)})
-    return fnlib.build(ps, inst["ret"], V.ARR, inst["tc"], "function", None, anns=anns,
+    return fnlib.build(ps, inst["ret"], V.ARR, inst["tc"], "varargs-kw" if inst.get("varkw") else "function", None, anns=anns,
                        stringify=bool(inst.get("stringify")))
 
 
@@ -313,13 +318,13 @@ def scenario(inst, V):
     values = [V.arr(s) for s in shapes]
     fnlib.HOLD["ret"] = V.arr(rshape) if rshape is not None else None
     fnlib.HOLD["body_exc"] = None
-    ck = (repr(params), ret, V.ARR, inst["tc"], bool(inst.get("with_default")), bool(inst.get("stringify")))
+    ck = (repr(params), ret, V.ARR, inst["tc"], bool(inst.get("with_default")), bool(inst.get("stringify")), bool(inst.get("varkw")))
     if ck not in _union_cache:
         _union_cache[ck] = build_fn(inst, V)
     fn, pn = _union_cache[ck]
     jt.config.update("jaxtyping_remove_typechecker_stack", bool(inst["switch"]))
     try:
-        kind, res = fnlib.call(fn, pn[:len(values)], values, "pos")
+        kind, res = fnlib.call(fn, pn[:len(values)], values, "pos+kwlast" if inst.get("varkw") else "pos")
     finally:
         jt.config.update("jaxtyping_remove_typechecker_stack", False)
     if inst.get("misuse"):
